@@ -239,6 +239,14 @@ func (d *drv) bindKey(a *Arte) string {
 // records the skeleton input.
 func (d *drv) verifyCase(a *Arte, in verifyInput, compare bool) Verdict {
 	pristine := a.copy()
+	if a.CredRaw != nil {
+		// the fact extractors see the credential as encoding/json delivers it
+		if c, err := canonBytes(a.CredRaw, credS); err == nil {
+			pristine.Cred = asMap(c)
+		} else {
+			compare = false
+		}
+	}
 	v, vc := RunVerify(a, d.loader)
 	d.mu.Lock()
 	d.rep.Evaluations++
@@ -267,6 +275,10 @@ func (d *drv) verifyCase(a *Arte, in verifyInput, compare bool) Verdict {
 	d.bindMu.Lock()
 	_, have := d.bind[key]
 	d.bindMu.Unlock()
+	if a.CredRaw != nil {
+		have = false // the canonical form is not what the binding check re-marshals: no caching
+		key = "raw:" + string(a.CredRaw)
+	}
 	var term string
 	if have {
 		term = ProofSel(pristine, nil, d.loader)
@@ -430,6 +442,7 @@ func Run(cfg *common.Config) (*common.Report, error) {
 	d.artefactStream()
 	lap("artefacts")
 	d.siblingStream()
+	d.memberNameStream()
 	lap("siblings")
 	d.resolverStream()
 	d.programmaticStatusStream()
@@ -592,6 +605,12 @@ func (d *drv) replay() error {
 		d.cases = nil
 	case "path", "path-string", "path-index", "slot-path":
 		d.pathStream()
+	case "raw-decode":
+		var in rawInput
+		if err := json.Unmarshal(rf.Input, &in); err != nil {
+			return err
+		}
+		d.decodeRawCase(in.Target, in.Why, in.Body)
 	case "status-go-value":
 		d.programmaticStatusStream()
 	case "did-resolver", "status-resolver":
